@@ -511,6 +511,11 @@ const C15_CONSTRUCTS: &[&str] = &[
   "interval+timeout",
   "timer+flat_map-interval",
   "observe_on+observe_on",
+  "interval+ref_count",
+  "sample-by-interval",
+  "subscribe_on+interval",
+  "interval+delay",
+  "interval-merge-interval",
 ];
 const C15_ENDINGS: &[&str] = &["terminal", "unsubscribe", "take", "first", "take_until-timer", "amb-timer", "retry", "unsubscribe-early"];
 
@@ -563,7 +568,7 @@ impl Family for C15 {
     if !["complete", "error"].contains(&src_end.as_str()) {
       return RunOut::invalid();
     }
-    let endless = construct.starts_with("interval");
+    let endless = construct.starts_with("interval") || construct == "subscribe_on+interval";
     // an endless source cannot end by its own terminal: the ending then is an unsubscribe
     let ending = if endless && ending == "terminal" { "unsubscribe".to_string() } else { ending };
     // (end instant, tasks at that instant)
@@ -597,9 +602,14 @@ impl Family for C15 {
           "observe_on+subscribe_on" => cold_source(vec![script.clone()], slog.clone(), None, true).subscribe_on(sched()).observe_on(sched()),
           "interval+timeout" => iv().timeout(ms(2 * d + 7), sched()),
           "timer+flat_map-interval" => observables::timer(ms(d), sched()).flat_map(move |_| observables::interval(ms(d), schedulers::new_thread_scheduler()).map(|x| Val::Int(x as i64))),
-          _ => timed_src().observe_on(sched()).observe_on(sched()),
+          "observe_on+observe_on" => timed_src().observe_on(sched()).observe_on(sched()),
+          "interval+ref_count" => iv().ref_count().observable(),
+          "sample-by-interval" => timed_src().sample(observables::interval(ms(d), sched())),
+          "subscribe_on+interval" => iv().subscribe_on(sched()),
+          "interval+delay" => iv().delay(ms(7)),
+          _ => iv().merge(&[observables::interval(ms(d + 30), sched()).map(|x| Val::Int(1000 + x as i64))]),
         };
-        let endless = construct2.starts_with("interval") || construct2 == "timer+flat_map-interval";
+        let endless = construct2.starts_with("interval") || construct2 == "timer+flat_map-interval" || construct2 == "subscribe_on+interval";
         let mut need_unsub: Option<i64> = None;
         match ending2.as_str() {
           "terminal" => {
